@@ -105,7 +105,12 @@ AStep(A, s, b) == A.delta[s][A.cls[b + 1]]
 RECURSIVE ARunFrom(_, _, _, _)
 ARunFrom(A, s, k, i) == IF i > Len(k) THEN s ELSE ARunFrom(A, AStep(A, s, k[i]), k, i + 1)
 ARun(A, k) == ARunFrom(A, A.start, k, 1)
-Accepts(A, k) == ARun(A, k) \in A.match
+\* `eof` is the table of the optional end-of-key hook (Automaton::accept_eof): 0, or the
+\* state the hook moves to.  C04 excludes the hook (all entries 0); with it, as the reader is
+\* coded (FstReader!EofMatch), the verdict on a non-empty key is taken in the hook's state
+\* and the empty key is judged in the start state without asking the hook.
+AEofMatch(A, s) == IF A.eof[s] # 0 THEN A.eof[s] \in A.match ELSE s \in A.match
+Accepts(A, k) == IF k = <<>> THEN A.start \in A.match ELSE AEofMatch(A, ARun(A, k))
 
 \* the contract of C04 / C18: hints are sound
 AReach(A, s) ==
